@@ -228,11 +228,14 @@ theorem plain_scan_run (flow : Bool) (term : List Char) (ht : isTerm flow term =
 
 theorem pvs_unfold {s : List Char} {y flow : Bool} (h : isPlainValueSafe s y flow = true) :
     isAmbiguousValue s y = false ∧ headRejects s = false ∧ containsColonSpace s = false ∧
-      endsWithColon (trim s) = false ∧ SafeChars flow s := by
+      endsWithColon (trim s) = false ∧ SafeChars flow s ∧ (flow = true → endsWithBlankDash s = false) := by
   unfold isPlainValueSafe at h
   by_cases h1 : isAmbiguousValue s y = true
   · rw [if_pos h1] at h; cases h
   rw [if_neg h1] at h
+  by_cases h0 : (flow && endsWithBlankDash s) = true
+  · rw [if_pos h0] at h; cases h
+  rw [if_neg h0] at h
   by_cases h2 : headRejects s = true
   · rw [if_pos h2] at h; cases h
   rw [if_neg h2] at h
@@ -240,7 +243,9 @@ theorem pvs_unfold {s : List Char} {y flow : Bool} (h : isPlainValueSafe s y flo
   · rw [if_pos h3] at h; cases h
   rw [if_neg h3] at h
   simp only [Bool.or_eq_true, not_or, Bool.not_eq_true] at h3
-  refine ⟨by simpa using h1, by simpa using h2, h3.1, h3.2, ?_⟩
+  have hdash : flow = true → endsWithBlankDash s = false := by
+    intro hf; subst hf; simpa using h0
+  refine ⟨by simpa using h1, by simpa using h2, h3.1, h3.2, ?_, hdash⟩
   cases flow with
   | true =>
     simp only [if_true, Bool.not_eq_true'] at h
@@ -256,6 +261,28 @@ theorem pvs_unfold {s : List Char} {y flow : Bool} (h : isPlainValueSafe s y flo
     intro c hc
     obtain ⟨hctl, hv⟩ := this c hc
     exact ⟨hctl, hv '#' (by simp), fun hf => by cases hf⟩
+
+/-- `s.ends_with(" -")` false ⇒ not a suffix -/
+theorem not_suffix_of_endsWithBlankDash {s : List Char} (h : endsWithBlankDash s = false) : ¬ [' ', '-'] <:+ s := by
+  intro hs
+  have : endsWithBlankDash s = true := by
+    unfold endsWithBlankDash
+    exact List.isSuffixOf_iff_suffix.mpr hs
+  rw [h] at this; cases this
+
+/-- what `is_unsafe_plain_shape(s) == false` gives -/
+theorem unsafe_shape_facts {s : List Char} (h : isUnsafePlainShape s = false) :
+    s.getLast? ≠ some ' ' ∧ s.head? ≠ some (Char.ofNat 0xFEFF) ∧ docMarkerLike s = false := by
+  unfold isUnsafePlainShape at h
+  simp only [Bool.or_eq_false_iff] at h
+  refine ⟨by simpa using h.1.1, ?_, h.2⟩
+  cases s with
+  | nil => simp
+  | cons c r =>
+    simp only [List.head?_cons, ne_eq, Option.some.injEq]
+    intro e; subst e
+    have := h.1.2
+    simp [startsWithBom] at this
 
 theorem ps_unfold {s : List Char} (h : isPlainSafe s = true) :
     isAmbiguous s = false ∧ headRejects s = false ∧ (∀ c ∈ s, isControl c = false ∧ c ≠ ':' ∧ c ≠ '#') := by
@@ -397,5 +424,47 @@ theorem plain_start (flow col0 : Bool) (s rest : List Char) (hs : SafeChars flow
       rw [hm']
       simp only [hfi, hdq.1, hdq.2, h1, h7, h8, h9, h10, h11, h12, h13, h14, h15, h16, hhash, hbbz,
         Bool.false_eq_true, if_false, Bool.or_self]
+
+
+/-- what `is_ambiguous(s) == false` gives (after 1fdb06b / b4ece9d: the merge key and everything the
+crate's own readers take for a number are ambiguous) -/
+theorem not_ambiguous_facts {s : List Char} (h : isAmbiguous s = false) :
+    s ≠ [] ∧ s ≠ ['<', '<'] ∧ Scalars.scalarIsNullish s .plain = false ∧ readsAsNumber s = false := by
+  unfold isAmbiguous at h
+  by_cases e1 : s.isEmpty = true
+  · rw [if_pos e1] at h; cases h
+  rw [if_neg e1] at h
+  by_cases e0 : (s == ['<', '<']) = true
+  · rw [if_pos e0] at h; cases h
+  rw [if_neg e0] at h
+  by_cases e2 : (s == ['~'] || eqIgnoreAsciiCase s "null".toList || eqIgnoreAsciiCase s "true".toList
+      || eqIgnoreAsciiCase s "false".toList) = true
+  · rw [if_pos e2] at h; cases h
+  rw [if_neg e2] at h
+  by_cases e3 : isSpecialInfNan s = true
+  · rw [if_pos e3] at h; cases h
+  rw [if_neg e3] at h
+  by_cases e4 : isNumericLooking s = true
+  · rw [if_pos e4] at h; cases h
+  rw [if_neg e4] at h
+  by_cases e5 : readsAsNumber s = true
+  · rw [if_pos e5] at h; cases h
+  simp only [Bool.or_eq_true, not_or, Bool.not_eq_true] at e2
+  refine ⟨by intro e; subst e; simp at e1, by intro e; subst e; simp at e0, ?_, by simpa using e5⟩
+  simp only [Scalars.scalarIsNullish, Bool.and_eq_false_iff, Bool.or_eq_false_iff]
+  right
+  exact ⟨⟨by simpa using e1, e2.1.1.1⟩, e2.1.1.2⟩
+
+theorem not_ambiguous_value_facts {s : List Char} {y : Bool} (h : isAmbiguousValue s y = false) :
+    isAmbiguous s = false ∧ (y = false → (Scalars.parseYaml11Bool s).isSome = false) := by
+  unfold isAmbiguousValue at h
+  by_cases h1 : isAmbiguous s = true
+  · rw [if_pos h1] at h; cases h
+  rw [if_neg h1] at h
+  refine ⟨by simpa using h1, ?_⟩
+  intro hy; subst hy
+  by_cases h2 : (!false && (Scalars.parseYaml11Bool s).isSome) = true
+  · rw [if_pos h2] at h; cases h
+  simpa using h2
 
 end SaphyrVerif.Lemmas.C12
